@@ -16,7 +16,7 @@ Lam(e) == SzExpr(e, "lambda")
 U_C18 == {
     RDecl(<<U1("a"), IntF("b", 2, FALSE, "little")>>, {46, 42, 10}, 3),
     \* signed integers fixed to negative values (bytes >= 128), either byte order
-    RDecl(<<IntF("a", 1, TRUE, "default"), IntF("b", 2, TRUE, "little"), U1("z")>>, {0, 128, 255, 46}, 4),
+    RDecl(<<IntF("a", 1, TRUE, "default"), IntF("b", 2, TRUE, "little"), U1("z")>>, {0, 128, 255, 254, 46}, 4),     \* (-1 and -2: equal hashes)
     RDecl(<<IntF("a", 2, TRUE, "big"), IntF("b", 3, TRUE, "default")>>, {1, 255}, 5),
     RDecl(<<U1("a"), DataF("d", SzConst(2)), U1("z")>>, {91, 92, 1}, 4),
     RDecl(<<U1("a"), DataF("d", SzField("a")), U1("z")>>, {0, 1, 2, 36}, 4),
@@ -41,6 +41,9 @@ U_C18 == {
     \* a size that depends on where the field begins, behind fields of other widths than one byte left as Any
     RDecl(<<IntF("a", 2, FALSE, "default"), DataF("d", Lam(EBin("mod", EUn("neg", EOff), EC(4)))), U1("z")>>, {0, 1, 46}, 5),
     RDecl(<<U1("n"), DataF("b", SzField("n")), DataF("d", Lam(EBin("mod", EUn("neg", EOff), EC(4)))), U1("z")>>, {0, 2, 3}, 5),
+    \* a size expression that cannot be evaluated on the pattern for another reason than an Any operand (division by a field
+    \* fixed to zero): the field's length is then simply not fixed by the pattern
+    RDecl(<<U1("a"), U1("b"), DataF("d", Defer(EBin("floordiv", EF("a"), EF("b")))), U1("z")>>, {0, 1, 2}, 4),
     \* the last field is a byte string whose literal value may be empty
     RDecl(<<U1("a"), DataF("d", SzField("a"))>>, {0, 1, 36}, 3),
     RDecl(<<U1("a"), DataF("d", Defer(EBin("sub", EF("a"), EC(1))))>>, {1, 2, 46}, 3),
